@@ -4,12 +4,11 @@ package freelist
 
 import "sort"
 
-// VerifSnapshot returns the free ids, the pending records (freeing txid,
-// page id, allocating txid or 0) and the registered reader ids.
-func VerifSnapshot(f Interface) (free []uint64, pending [][3]uint64, readers []uint64) {
+// VerifSnapshot returns the free ids and the pending records (freeing txid,
+// page id, allocating txid or 0). The caller must be the writer.
+func VerifSnapshot(f Interface) (free []uint64, pending [][3]uint64) {
 	free = []uint64{}
 	pending = [][3]uint64{}
-	readers = []uint64{}
 	for _, id := range f.freePageIds() {
 		free = append(free, uint64(id))
 	}
@@ -25,17 +24,6 @@ func VerifSnapshot(f Interface) (free []uint64, pending [][3]uint64, readers []u
 		}
 		return pending[i][0] < pending[j][0]
 	})
-	switch t := f.(type) {
-	case *array:
-		for _, r := range t.readonlyTXIDs {
-			readers = append(readers, uint64(r))
-		}
-	case *hashMap:
-		for _, r := range t.readonlyTXIDs {
-			readers = append(readers, uint64(r))
-		}
-	}
-	sort.Slice(readers, func(i, j int) bool { return readers[i] < readers[j] })
 	return
 }
 
